@@ -70,6 +70,10 @@ func verifHarnessC19() {
 	nk := verifParam("keys")
 	keys := make([][]byte, nk)
 	for i := range keys {
+		if i == 1 && verifParam("longkey") > 0 {
+			keys[i] = verifBytes("key", verifParam("longkey")) // a second user key of arbitrary bytes
+			continue
+		}
 		keys[i] = verifBytes("key", 1)
 		for j := 0; j < i; j++ {
 			verifAssume(verifBytesLess(keys[j], keys[i]))
